@@ -79,6 +79,11 @@ func (g *Gen) totalCall() Ev {
 			e["wm"] = true
 			e["m"] = m
 		}
+		if op == "Pow" {
+			if w := lnWitness(x); w != nil {
+				e["w"] = w
+			}
+		}
 	case 6:
 		e = Ev{"op": []string{"Round", "Ceil", "Floor"}[g.r.Intn(3)], "wm": true, "m": m}
 		e.setDec("x", x)
@@ -211,7 +216,7 @@ func (g *Gen) concurrent(G, ncalls int) {
 			for _, k := range order {
 				c := cloneEv(calls[k])
 				exec(c)
-				c["g"] = gi + 1
+				c["gid"] = gi + 1
 				c["k"] = k
 				c["seqeq"] = sameOutputs(outputsOf(calls[k], c), withG(seq[k], c))
 				out[gi] = append(out[gi], c)
@@ -235,7 +240,7 @@ func withG(seq map[string]any, c Ev) map[string]any {
 	for k, v := range seq {
 		o[k] = v
 	}
-	for _, k := range []string{"g", "k", "seqeq"} {
+	for _, k := range []string{"gid", "k", "seqeq"} {
 		if v, ok := c[k]; ok {
 			o[k] = v
 		}
